@@ -473,13 +473,121 @@ theorem ctorWorkflowList_total (O : Oracle) (j : JVal) : (ctorWorkflowList O j).
     exact fine_bind (ctorWorkflow_total O ⟨_, lookup_name_injected kv.1 m⟩) (fun _ _ => rfl)
   · rfl
 
+/-! ## ad-hoc actions, workbooks -/
+
+theorem actionBody_fine (O : Oracle) {kvs : List (Key × JVal)}
+    (hb : ∃ b, lookup "base" kvs = some b ∧ NonEmptyStr b) (hn : ∃ n, lookup "name" kvs = some n)
+    (hbi : ∀ v, lookup "base-input" kvs = some v → StrKeyDict v) (hin : ∀ v, lookup "input" kvs = some v → InputList v) :
+    (actionBody O kvs).fine = true := by
+  obtain ⟨b, hb, s, rfl, _⟩ := hb
+  obtain ⟨n, hn⟩ := hn
+  unfold actionBody
+  rw [getD_some hb]
+  refine fine_bind (parseCmd_str_fine O s) (fun _ _ => ?_)
+  refine fine_bind (checkExpr_fine ..) (fun _ _ => ?_)
+  refine fine_bind (checkExpr_fine ..) (fun _ _ => ?_)
+  refine fine_bind ?_ (fun _ _ => ?_)
+  · split
+    · exact checkExpr_fine ..
+    · rfl
+  rw [getItem_fine hn, getItem_fine hb]
+  show (Res.bind (dictFromEntries _) _).fine = true
+  refine fine_bind (dictFromEntries_fine ?_) (fun _ _ => ?_)
+  · cases hl : lookup "input" kvs with
+    | none => exact .inl (getD_none hl)
+    | some v => rw [getD_some hl]; exact .inr (hin v hl)
+  refine fine_bind (parseCmd_str_fine O s) (fun _ _ => ?_)
+  refine fine_bind ?_ (fun _ _ => rfl)
+  cases hl : lookup "base-input" kvs with
+  | none => rw [getD_none hl]; rfl
+  | some v =>
+    rw [getD_some hl]
+    obtain ⟨m, rfl, _⟩ := hbi v hl
+    rfl
+
+/-- ActionSpec: `_parse_cmd_and_input(data.get('base'))` (base required, a non-empty string),
+    `data['name']`, `data['base']`, `get_dict_from_entries(input)`, `merge_dicts(base-input, …)` (a dict). -/
+theorem ctorAction_total (O : Oracle) (j : JVal) : (ctorAction O j).fine = true := by
+  unfold ctorAction
+  split
+  · rename_i hacc
+    obtain ⟨kvs, rfl, _, hb, ⟨n, hn, _⟩, _, hbi, hin, _⟩ := action_accept_shape hacc
+    exact actionBody_fine O hb ⟨n, hn⟩ hbi hin
+  · rfl
+
+/-- ActionListSpec (what `get_action_list_spec_from_yaml` and POST /v2/actions build). -/
+theorem ctorActionList_total (O : Oracle) (j : JVal) : (ctorActionList O j).fine = true := by
+  unfold ctorActionList
+  split
+  · rename_i hacc
+    obtain ⟨kvs, rfl, _, hmem⟩ := action_list_accept_shape hacc
+    show (Res.bind (guardDef _ _) _).fine = true
+    refine fine_bind (guardDef_fine ..) (fun _ _ => ?_)
+    refine fine_bind (guardDef_fine ..) (fun _ _ => ?_)
+    refine fine_bind (mapRes_fine (fun kv hkv => ?_)) (fun _ _ => rfl)
+    simp only [listSpecMembers, List.mem_filter, bne_iff_ne, ne_eq] at hkv
+    obtain ⟨m, hm, _⟩ := hmem kv hkv.1 hkv.2
+    rw [hm]
+    exact fine_bind (ctorAction_total O _) (fun _ _ => rfl)
+  · rfl
+
+theorem specList_fine {ctor : JVal → Res JVal} {v : JVal} (hobj : ∃ ms, v = .obj ms)
+    (hd : ∀ k m, (ctor (.obj (setKey (.s "version") (.str "2.0") (setKey (.s "name") (keyVal k) m)))).fine = true)
+    (hn : ∀ x, x.isObj = false → (ctor x).fine = true) : (specList ctor v).fine = true := by
+  obtain ⟨ms, rfl⟩ := hobj
+  unfold specList
+  show (Res.bind (mapRes _ (specListMembers ms)) _).fine = true
+  refine fine_bind (mapRes_fine (fun kv _ => ?_)) (fun _ _ => rfl)
+  split
+  · exact fine_bind (hd _ _) (fun _ _ => rfl)
+  · rename_i hno
+    refine fine_bind (hn _ ?_) (fun _ _ => rfl)
+    cases hv : kv.2 <;> first | rfl | exact absurd hv (hno _)
+
+theorem injectVersion_obj {v : JVal} (h : ∃ ms, v = .obj ms) : ∃ ms, injectVersion v = .obj ms := by
+  obtain ⟨ms, rfl⟩ := h
+  exact ⟨_, rfl⟩
+
+/-- WorkbookSpec: `data['name']` (required), `_inject_version` and `.items()` of the two sections (dicts),
+    every member through `ActionSpec` / `WorkflowSpec` (a member that is not a dict is a definition error of
+    those constructors; a dict gets its `name` first). -/
+theorem ctorWorkbook_total (O : Oracle) (j : JVal) : (ctorWorkbook O j).fine = true := by
+  unfold ctorWorkbook
+  split
+  · rename_i hacc
+    obtain ⟨kvs, rfl, _, ⟨n, hn, _⟩, _, hsec, _⟩ := workbook_accept_shape hacc
+    show (workbookBody O kvs).fine = true
+    unfold workbookBody
+    simp only []
+    rw [getItem_fine hn]
+    refine fine_bind (r := Res.ok n) rfl (fun _ _ => ?_)
+    refine fine_bind ?_ (fun _ _ => fine_bind ?_ (fun _ _ => rfl))
+    · cases hl : lookup "actions" kvs with
+      | none => rfl
+      | some v =>
+        obtain ⟨ms, hv, _⟩ := hsec "actions" (by simp) v hl
+        obtain ⟨ms', hi⟩ := injectVersion_obj ⟨ms, hv⟩
+        simp only [Option.map_some, hi]
+        exact specList_fine ⟨ms', rfl⟩ (fun _ _ => ctorAction_total O _) (fun x _ => ctorAction_total O x)
+    · cases hl : lookup "workflows" kvs with
+      | none => rfl
+      | some v =>
+        obtain ⟨ms, hv, _⟩ := hsec "workflows" (by simp) v hl
+        obtain ⟨ms', hi⟩ := injectVersion_obj ⟨ms, hv⟩
+        simp only [Option.map_some, hi]
+        exact specList_fine ⟨ms', rfl⟩ (fun k m => ctorWorkflow_total O ⟨_, lookup_name_injected k m⟩)
+          (fun x hx => ctorWorkflow_non_dict O hx)
+  · rfl
+
 /-- (summary) every modelled constructor is total: a specification or a definition error. -/
 theorem constructor_total (O : Oracle) (j : JVal) :
     (ctorRetry O j).fine = true ∧ (ctorPolicies O j).fine = true ∧ (ctorPublish O j).fine = true ∧
     (ctorOnClause O j).fine = true ∧ (ctorTaskDefaults O j).fine = true ∧ (ctorTask O j).fine = true ∧
-    (ctorWorkflowList O j).fine = true :=
+    (ctorWorkflowList O j).fine = true ∧ (ctorAction O j).fine = true ∧ (ctorActionList O j).fine = true ∧
+    (ctorWorkbook O j).fine = true :=
   ⟨ctorRetry_total O j, ctorPolicies_total O j, ctorPublish_total O j, ctorOnClause_total O j,
-   ctorTaskDefaults_total O j, ctorTask_total O j, ctorWorkflowList_total O j⟩
+   ctorTaskDefaults_total O j, ctorTask_total O j, ctorWorkflowList_total O j, ctorAction_total O j,
+   ctorActionList_total O j, ctorWorkbook_total O j⟩
 
 /-- non-vacuity: the constructors do build specifications (not everything is a definition error). -/
 example : (match ctorTask trivialOracle (.obj [(.s "name", .str "t1"), (.s "version", .str "2.0"),
@@ -495,5 +603,10 @@ example : (match ctorWorkflowList trivialOracle (.obj [(.s "version", .str "2.0"
 example : (match ctorWorkflowList trivialOracle (.obj [(.s "version", .str "2.0"),
     (.s "wf", .obj [(.s "tasks", .obj [(.s "version", .obj [(.s "action", .str "x")])])])]) with
     | .defErr _ => true | _ => false) = true := by decide
+
+example : (match ctorWorkbook trivialOracle (.obj [(.s "version", .str "2.0"), (.s "name", .str "wb"),
+    (.s "actions", .obj [(.s "a1", .obj [(.s "base", .str "std.echo"), (.s "base-input", .obj [(.s "output", .str "x")])])]),
+    (.s "workflows", .obj [(.s "wf1", .obj [(.s "tasks", .obj [(.s "t1", .obj [(.s "action", .str "wb.a1")])])])])]) with
+    | .ok _ => true | _ => false) = true := by decide
 
 end Mistral.Props.C14Ctor
